@@ -307,6 +307,11 @@ def f_child_no_parents(it, g, pos, spell):
     p = f"zz{g.mark()}"
     f = Field(f"ch{g.mark()}" if named else None, "i32", [Instr("child", "child", container=zn, path=p, spelling=spell)])
     _ins(it.fields, pos, f)
+    if g.chance(0.35) and not any(a.kind == "child_parents" for a in it.attrs):
+        # the path is listed in a default #[child_parents], but the counterpart has its own, dedicated list - which lacks it
+        it.attrs.insert(0, Instr("child_parents", "child_parents", container=None, entries=[dict(path=p, ty=f"T{g.mark()}", hint=None)]))
+        it.attrs.append(Instr("child_parents", "child_parents", container=zn, entries=[dict(path=f"other{g.mark()}", ty=f"U{g.mark()}", hint=None)]))
+        return Fault("child_no_parents", nm + "/dedicated_list_incomplete", [f"Missing '{p}: [Type Path]' instruction for type {zn}"])
     # with a default #[child_parents(..)] in scope the missing *entry* is named, otherwise the missing instruction
     return Fault("child_no_parents", nm, [re.compile(r"^Missing (#\[child_parents\(\.\.\.\)\] instruction for " + zn + r"|'" + p + r": \[Type Path\]' instruction for type " + zn + r")$")])
 
